@@ -336,6 +336,33 @@ func c15(c *wk.Ctx) {
 		}
 		idx++
 	}
+	// the two nesting mechanisms composed: chains of objects (each shorter than any depth limit) whose innermost
+	// object is a gzip_packed holding the next chain, for many layers
+	for _, sh := range [][2]int{{2, 511}, {8, 300}, {300, 100}, {c.Pick(3000, 12000), 500}} {
+		if c.Mine(idx) {
+			layers, per := sh[0], sh[1]
+			inner := le32(0x997275b5)
+			chain := make([]byte, 0, per*12)
+			for i := 0; i < per; i++ {
+				chain = append(chain, le32(0xf35c6d01)...)
+				chain = append(chain, le64(uint64(7))...)
+			}
+			for l := 0; l < layers; l++ {
+				var z bytes.Buffer
+				zw, _ := gzip.NewWriterLevel(&z, gzip.BestSpeed)
+				zw.Write(inner)
+				zw.Close()
+				inner = append(append(append([]byte{}, chain...), le32(0x3072cfa1)...), tlBytes(z.Bytes())...)
+				if len(inner) > 12<<20 {
+					break
+				}
+			}
+			c.Begin(idx, fmt.Sprintf("deep mixed layers=%d objects-per-layer=%d bytes=%d", layers, per, len(inner)))
+			m.call(idx, inner, "DecodeUnknownObject", "deep-mixed", func() error { _, e := tl.DecodeUnknownObject(inner); return e })
+			c.Distinct("deep-mixed", layers, per)
+		}
+		idx++
+	}
 	// uniform random bytes as a floor
 	for k := 0; k < c.Pick(20000, 600000); k++ {
 		if c.Mine(idx) {
@@ -369,6 +396,7 @@ func c15seed(c *wk.Ctx, m *c15mon, idx int, r *rand.Rand, t reflect.Type, seed [
 		tname = t.String()
 	}
 	try := func(in []byte, class string, hintSel int) {
+		in = in[:len(in):len(in)] // nothing behind the input: capacity == length
 		m.call(idx, in, "DecodeUnknownObject", class, func() error { _, e := tl.DecodeUnknownObject(in); return e })
 		if t != nil {
 			m.call(idx, in, "Decode", class, func() error {
